@@ -1,8 +1,16 @@
 #!/bin/sh
-# run from a vp snapshot: all thorough tiers against the repo snapshot
+# run from a vp snapshot: all thorough tiers against the repo snapshot. C01 and C08 spend an hour waiting
+# (one-hour-later engines): they are started first, ten minutes apart, and the other checks run while they wait.
 [ -n "$VP_RUN_REPO" ] && export VERIF_REPO=$VP_RUN_REPO
-for p in $(seq -f "C%02g" 1 20); do
-  t0=$(date +%s); out=$(./check $p thorough 2>&1); rc=$?
+one() {
+  p=$1; t0=$(date +%s); out=$(./check $p thorough 2>&1); rc=$?
   echo "$p rc=$rc $(( $(date +%s)-t0 ))s"
-  echo "$out" | grep -E '^(VIOLATION|  signature|INCONCLUSIVE|C[0-9][0-9] tier)' | cut -c1-300
-done
+  echo "$out" | grep -E '^(VIOLATION|  signature|INCONCLUSIVE|KNOWN-FINDING|C[0-9][0-9] tier)' | cut -c1-300
+}
+one C01 > thorough.C01.out 2>&1 &
+sleep 720
+one C08 > thorough.C08.out 2>&1 &
+sleep 420
+for p in C02 C03 C04 C05 C06 C07 C09 C10 C11 C12 C13 C14 C15 C16 C17 C18 C19 C20; do one $p; done
+wait
+cat thorough.C01.out thorough.C08.out; rm -f thorough.C01.out thorough.C08.out
